@@ -315,6 +315,21 @@ def other_cases(ctx, rng, scale, add, dist, failures):
     from torch import nn
     from vector_quantize_pytorch import SimVQ, ResidualSimVQ, RandomProjectionQuantizer, LatentQuantize
     n = (8 if not ctx.thorough else 60) * scale
+    # in-place codebook optimiser with a LARGE step: the call's index and vector both refer to the codebook AFTER the step (the module quantizes again)
+    from vlib import callzoo as _cz
+    try:
+        for kw_i, x_i, out_i, idx_i, loss_i, com_i, cb_i in _cz.inplace_big_step_cases(torch, rng, 4 if not ctx.thorough else 12):
+            d2 = ((x_i.reshape(-1, 1, 3) - cb_i[None]) ** 2).sum(-1)
+            near = d2.argmin(dim=-1)
+            flat_idx = idx_i.reshape(-1)
+            margin = (d2.gather(1, flat_idx[:, None])[:, 0] - d2.min(dim=-1).values)
+            vec_ok = torch.allclose(out_i.reshape(-1, 3), cb_i[flat_idx], atol=1e-5)
+            dist['inplace_big_step_calls'] = dist.get('inplace_big_step_calls', 0) + 1
+            if bool((margin > 1e-5).any()) or not vec_ok:
+                failures.append({'key': 'vq-inplace-big-step:index-and-vector-disagree', 'what': f'VectorQuantize(in-place optimiser, large step): {int((margin > 1e-5).sum())} of {flat_idx.numel()} returned indices are not a nearest code of the '
+                                 f'codebook after the step; returned vector = codebook[index]: {vec_ok}', 'case': dict(kind='inplace-big-step')})
+    except Exception as ex:
+        failures.append({'key': f'vq-inplace-big-step:exception:{type(ex).__name__}', 'what': repr(ex), 'case': dict(kind='inplace-big-step')})
     # RE-ENTRANCY: a read-only forward hook on the codebook (a monitoring probe) runs another, differently shaped image through the same module while the
     # outer call is in flight: every pixel of the outer call still gets the index of ITS nearest code, in ITS position
     from vector_quantize_pytorch import VectorQuantize as _VQ
